@@ -7,6 +7,7 @@ import (
 	"strings"
 
 	"github.com/koykov/dyntpl"
+	"github.com/koykov/inspector"
 	"github.com/koykov/inspector/testobj"
 	"github.com/koykov/inspector/testobj_ins"
 )
@@ -48,6 +49,9 @@ type StaticVar struct {
 type DataEnv struct {
 	User    UserData
 	Statics []StaticVar
+	// Extras adds variables of kinds only the panic/hang oracle looks at (C13): string-keyed maps
+	// of slices, of maps and of mixed values, a slice of strings, all with the library inspectors.
+	Extras bool `json:"extras,omitempty"`
 }
 
 func (u *UserData) object() *testobj.TestObject {
@@ -73,6 +77,12 @@ var tobjIns testobj_ins.TestObjectInspector
 
 // Apply sets the variables of the environment on a context.
 func (d *DataEnv) Apply(ctx *dyntpl.Ctx) {
+	if d.Extras {
+		ctx.Set("mslices", map[string]any{"a": []string{"x"}, "b": []string{"y", "z"}, "c": []string{}}, inspector.StringAnyMapInspector{})
+		ctx.Set("mmaps", map[string]any{"p": map[string]any{"q": 1}, "r": map[string]any{"s": "t"}}, inspector.StringAnyMapInspector{})
+		ctx.Set("mmixed", map[string]any{"i": 1, "s": "t", "f": 1.5, "n": nil, "l": []any{1, "x"}, "b": []byte("bb")}, inspector.StringAnyMapInspector{})
+		ctx.Set("strs", []string{"a", "b", "c"}, inspector.StringsInspector{})
+	}
 	if d.User.Present {
 		ctx.Set("user", d.User.object(), tobjIns)
 	}
@@ -151,6 +161,20 @@ func (d *DataEnv) Apply(ctx *dyntpl.Ctx) {
 func gBytes(b []byte) string {
 	if len(b) == 0 {
 		return "[]"
+	}
+	// long literals in pieces: the string notation is interpreted recursively and overflows
+	// coqc's stack beyond some 100 KB
+	const piece = 2000
+	if len(b) > piece {
+		var parts []string
+		for i := 0; i < len(b); i += piece {
+			j := i + piece
+			if j > len(b) {
+				j = len(b)
+			}
+			parts = append(parts, fmt.Sprintf("#\"%x\"", b[i:j]))
+		}
+		return "(" + strings.Join(parts, " ++ ") + ")%list"
 	}
 	return fmt.Sprintf("#\"%x\"", b)
 }
